@@ -142,11 +142,13 @@ package persistence
 
 // Cloning a source (C19): index and phase are copied, parameters and both transactions are clones (equal view, fresh memory).
 //@ func FromSource
+//@   inline
 //@   requires s != nil && srcParams(s).Nonce != nil && partsNonNil(srcParams(s).Parts) && txCloneable(srcStagingTX(s)) && txCloneable(srcCurrentTX(s))
 //@   ensures result != nil && fresh(result) && result.IdxV == srcIdx(s) && result.PhaseV == srcPhase(s) && result.PeersV == ps && result.Parent == parent
 //@   ensures result.ParamsV != nil && fresh(result.ParamsV) && paramsCloned(*result.ParamsV, *srcParams(s))
 //@   ensures txCloned(result.StagingTXV, srcStagingTX(s)) && txCloned(result.CurrentTXV, srcCurrentTX(s))
 //@ func CloneSource
+//@   inline
 //@   requires s != nil && srcParams(s).Nonce != nil && partsNonNil(srcParams(s).Parts) && txCloneable(srcStagingTX(s)) && txCloneable(srcCurrentTX(s))
 //@   ensures istype(result, "*chSource") && fresh(payload(result)) && as(result, "*chSource").IdxV == srcIdx(s) && as(result, "*chSource").PhaseV == srcPhase(s)
 //@   ensures as(result, "*chSource").ParamsV != nil && fresh(as(result, "*chSource").ParamsV) && paramsCloned(*as(result, "*chSource").ParamsV, *srcParams(s))
